@@ -200,6 +200,9 @@ func init() {
 			{Plugin: "sites", Func: "mobius.(*ThreadedNewsYAML).CreateGrouping", Kinds: []string{"site", "post"}},
 			{Plugin: "yamltags", Opts: "hotline.ThreadedNews hotline.NewsCategoryListData15 hotline.NewsArtData"},
 			{Func: "hotline.(*Field).DecodeNewsPath"},
+			{Plugin: "handler-contract", Func: "mobius.HandlePostNewsArt", Kinds: []string{"site"}},
+			{Plugin: "handler-contract", Func: "mobius.HandleDelNewsArt", Kinds: []string{"site"}},
+			{Plugin: "handler-contract", Func: "mobius.HandleGetNewsArtData", Kinds: []string{"site"}},
 			{Plugin: "sites", Func: "mobius.(*ThreadedNewsYAML).DeleteNewsItem", Kinds: []string{"site", "guarded", "inv-init"}},
 			{Plugin: "sites", Func: "mobius.(*ThreadedNewsYAML).GetArticle", Kinds: []string{"guarded", "inv-init"}},
 			{Plugin: "sites", Func: "mobius.(*ThreadedNewsYAML).ListArticles", Kinds: []string{"site", "guarded", "inv-init"}},
@@ -414,7 +417,8 @@ func init() {
 			"hotline.(*FileNameWithInfo).Read", "hotline.(*FileNameWithInfo).Write",
 			"hotline.(*FlatFileInformationFork).Read", "hotline.(*FlatFileInformationFork).DataSize", "hotline.(*FlatFileInformationFork).Size",
 			"hotline.(*FlatFileInformationFork).ReadNameSize", "hotline.(*FlatFileInformationFork).SetComment",
-			"hotline.(*fileWrapper).flattenedFileObject", "hotline.NewFileWrapper",
+			"hotline.(*fileWrapper).flattenedFileObject", "hotline.NewFileWrapper", "hotline.(*ServerRecord).Write", "hotline.NewTime",
+			"hotline.(*FileResumeData).BinaryMarshal", "hotline.NewFileResumeData", "hotline.NewForkInfoList", "hotline.(*Field).DecodeNewsPath",
 			"hotline.(*FlatFileInformationFork).UnmarshalBinary", "hotline.(*FlatFileInformationFork).Write",
 			"hotline.(*flattenedFileObject).Read", "hotline.(*FileHeader).Read",
 			"hotline.(*NewsArtList).Read", "hotline.(*NewsCategoryListData15).Read", "hotline.(*NewsArtListData).Read", "hotline.(*TrackerRegistration).Read",
